@@ -1,18 +1,531 @@
 //! C17 — on-start-up trigger rolls at most once, on the first record, if big enough.
 //! Real code: `RollingFileAppender` + `CompoundPolicy(OnStartUpTrigger, roller)` over pre-populated
-//! files; sequential histories with restarts, and 8 threads released by a barrier for the first
-//! append with the critical-section amplifier. Case format and executor are those of C05.
-use crate::c05::{self, Case, RollSpec, TrigChoice, TrigSpec};
-use crate::c04::RecSpec;
+//! files.
+//!  * `seq`   sequential histories (executor of C05): restarts, failing encoders (`e<n>!`), rotations
+//!            stopped at step k (`f<k>!`), rollers reporting Err after their work (`g!`), pre-existing
+//!            windows with gaps and bystanders, file sizes far above min_size;
+//!  * `conc`  the first records arrive simultaneously from 8 threads (executor of C05);
+//!  * `conc2` 2–16 threads per round, several rounds with a restart in between, failing encoders, a
+//!            roller that reports Err in chosen rounds; the appender is built here with harness wrappers
+//!            around the real policy / roller / encoder that call the race amplifier at every point
+//!            of the critical section where the crate itself has no hook (between get_writer and
+//!            policy.process, between the trigger and the roller, between the roller and the reopen,
+//!            before and after the encoder);
+//!  * `once`  ONE `OnStartUpTrigger` object shared by several appenders on different files: the calls
+//!            of `trigger()` race on the `Once` itself, no appender mutex in between.
+use crate::c04::{gen_bytes, parse_fail_rec, set_amplifier, RecSpec, Scratch, ScriptEncoder};
+use crate::c05::{self, pattern, Case, Env, RollSpec, TrigSpec};
 use crate::proto::*;
 use crate::rng::Rng;
+use log4rs::append::rolling_file::policy::compound::roll::delete::DeleteRoller;
+use log4rs::append::rolling_file::policy::compound::roll::fixed_window::FixedWindowRoller;
+use log4rs::append::rolling_file::policy::compound::roll::Roll;
+use log4rs::append::rolling_file::policy::compound::trigger::onstartup::OnStartUpTrigger;
+use log4rs::append::rolling_file::policy::compound::trigger::Trigger;
+use log4rs::append::rolling_file::policy::compound::CompoundPolicy;
+use log4rs::append::rolling_file::policy::Policy;
+use log4rs::append::rolling_file::{LogFile, RollingFileAppender};
+use log4rs::encode::{self, Encode};
+use std::path::Path;
+use std::sync::atomic::{AtomicBool, AtomicU64, Ordering};
+use std::sync::{Arc, Barrier};
 
 const MINS: &[u64] = &[0, 1, 5, 4096];
 
+fn point(tag: &str) {
+    log4rs::verif_hooks::critical_section_point(tag);
+}
+
+/// counts `Roll::roll` invocations, can report `Err` once after the real roller did its work, and
+/// calls the race amplifier on both sides of the real roller
+#[derive(Debug)]
+struct AmpRoller {
+    inner: Box<dyn Roll>,
+    calls: Arc<AtomicU64>,
+    late_fail: Arc<AtomicBool>,
+}
+
+impl Roll for AmpRoller {
+    fn roll(&self, file: &Path) -> anyhow::Result<()> {
+        self.calls.fetch_add(1, Ordering::SeqCst);
+        point("harness:between-trigger-and-roller");
+        let r = self.inner.roll(file);
+        point("harness:between-roller-and-reopen");
+        if r.is_ok() && self.late_fail.swap(false, Ordering::SeqCst) {
+            anyhow::bail!("roller reports a failure after doing its work");
+        }
+        r
+    }
+}
+
+#[derive(Debug)]
+struct AmpPolicy {
+    inner: CompoundPolicy,
+}
+
+impl Policy for AmpPolicy {
+    fn process(&self, log: &mut LogFile) -> anyhow::Result<()> {
+        point("harness:between-get-writer-and-policy");
+        let r = self.inner.process(log);
+        point("harness:after-policy");
+        r
+    }
+    fn is_pre_process(&self) -> bool {
+        self.inner.is_pre_process()
+    }
+}
+
+#[derive(Debug)]
+struct AmpEncoder(ScriptEncoder);
+
+impl Encode for AmpEncoder {
+    fn encode(&self, w: &mut dyn encode::Write, record: &log::Record) -> anyhow::Result<()> {
+        point("harness:before-encode");
+        let r = self.0.encode(w, record);
+        point("harness:after-encode");
+        r
+    }
+}
+
+fn real_roller(env: &Env) -> Box<dyn Roll> {
+    match &env.case.roll {
+        RollSpec::Delete => Box::new(DeleteRoller::new()),
+        RollSpec::Fw { base, count, pat } => {
+            let p = format!("{}/{}", env.scratch.path().display(), pattern(*pat));
+            Box::new(FixedWindowRoller::builder().base(*base).build(&p, *count).unwrap())
+        }
+    }
+}
+
+/// a new appender on the case's path: real trigger, real roller, real policy, amplifier wrappers
+fn build_amp(env: &Env) -> Option<RollingFileAppender> {
+    let min = match &env.case.trig {
+        TrigSpec::Startup(m) => *m,
+        _ => return None,
+    };
+    let roller: Box<dyn Roll> =
+        Box::new(AmpRoller { inner: real_roller(env), calls: env.roll_calls.clone(), late_fail: env.late_fail.clone() });
+    let policy = AmpPolicy { inner: CompoundPolicy::new(Box::new(OnStartUpTrigger::new(min)), roller) };
+    Some(
+        RollingFileAppender::builder()
+            .append(env.case.append)
+            .encoder(Box::new(AmpEncoder(ScriptEncoder::new())))
+            .build(&env.path, Box::new(policy))
+            .unwrap(),
+    )
+}
+
+fn exec_conc2(f: &[&str]) -> String {
+    if f.len() != 9 {
+        return "bad-case".to_owned();
+    }
+    let case = match Case::parse(&f[..6]) {
+        Some(c) => c,
+        None => return "bad-case".to_owned(),
+    };
+    let amp: u64 = match f[6].parse() {
+        Ok(a) => a,
+        Err(_) => return "bad-case".to_owned(),
+    };
+    let mut lates: Vec<usize> = vec![];
+    for l in dec_list(',', f[7]) {
+        match l.parse() {
+            Ok(k) => lates.push(k),
+            Err(_) => return "bad-case".to_owned(),
+        }
+    }
+    let mut rounds: Vec<Vec<Vec<(RecSpec, Option<u64>)>>> = vec![];
+    for rd in dec_list(';', f[8]) {
+        let mut threads = vec![];
+        for t in dec_list('|', &rd) {
+            let mut v = vec![];
+            for r in dec_list(',', &t) {
+                match parse_fail_rec(&r) {
+                    Some(x) => v.push(x),
+                    None => return "bad-case".to_owned(),
+                }
+            }
+            threads.push(v);
+        }
+        rounds.push(threads);
+    }
+    if !matches!(case.trig, TrigSpec::Startup(_)) {
+        return "bad-case".to_owned();
+    }
+    let env = Env::new(case, "c17c");
+    set_amplifier(amp);
+    let r = guarded(std::panic::AssertUnwindSafe(|| {
+        let mut out = vec![];
+        let mut app = Some(Arc::new(build_amp(&env).unwrap()));
+        for (k, threads) in rounds.iter().enumerate() {
+            if k > 0 {
+                drop(app.take());
+                app = Some(Arc::new(build_amp(&env).unwrap()));
+            }
+            env.roll_calls.store(0, Ordering::SeqCst);
+            env.late_fail.store(lates.contains(&k), Ordering::SeqCst);
+            let barrier = Arc::new(Barrier::new(threads.len().max(1)));
+            let handles: Vec<_> = threads
+                .iter()
+                .cloned()
+                .map(|prog| {
+                    let app = app.as_ref().unwrap().clone();
+                    let barrier = barrier.clone();
+                    std::thread::spawn(move || {
+                        barrier.wait();
+                        let mut acked = vec![];
+                        for (r, fail) in prog {
+                            if r.append_failing(&*app, fail).is_ok() {
+                                acked.push(r.id().to_string());
+                            }
+                        }
+                        acked
+                    })
+                })
+                .collect();
+            let acks: Vec<String> = handles.into_iter().map(|h| enc_list(",", &h.join().unwrap())).collect();
+            env.late_fail.store(false, Ordering::SeqCst);
+            out.push(format!("{}!{}!{}", enc_list("|", &acks), env.roll_calls.load(Ordering::SeqCst), env.snapshot()));
+        }
+        drop(app);
+        out.join("&")
+    }));
+    set_amplifier(0);
+    drop(env);
+    r.unwrap_or_else(|_| "PANIC".to_owned())
+}
+
+/// one trigger object behind several appenders
+#[derive(Debug)]
+struct SharedTrigger(Arc<OnStartUpTrigger>);
+
+impl Trigger for SharedTrigger {
+    fn trigger(&self, file: &LogFile) -> anyhow::Result<bool> {
+        point("harness:before-shared-trigger");
+        self.0.trigger(file)
+    }
+    fn is_pre_process(&self) -> bool {
+        self.0.is_pre_process()
+    }
+}
+
+#[derive(Debug)]
+struct CountRoller {
+    inner: Box<dyn Roll>,
+    calls: Arc<AtomicU64>,
+}
+
+impl Roll for CountRoller {
+    fn roll(&self, file: &Path) -> anyhow::Result<()> {
+        self.calls.fetch_add(1, Ordering::SeqCst);
+        self.inner.roll(file)
+    }
+}
+
+fn exec_once(f: &[&str]) -> String {
+    if f.len() != 3 {
+        return "bad-case".to_owned();
+    }
+    let min: u64 = match f[0].parse() {
+        Ok(m) => m,
+        Err(_) => return "bad-case".to_owned(),
+    };
+    let mut sizes: Vec<u64> = vec![];
+    for s in dec_list(',', f[1]) {
+        match s.parse() {
+            Ok(n) => sizes.push(n),
+            Err(_) => return "bad-case".to_owned(),
+        }
+    }
+    let nrec: u64 = match f[2].parse() {
+        Ok(n) => n,
+        Err(_) => return "bad-case".to_owned(),
+    };
+    let scratch = Scratch::new("c17o");
+    set_amplifier((min + nrec + sizes.len() as u64) % 3);
+    let r = guarded(std::panic::AssertUnwindSafe(|| {
+        let trigger = Arc::new(OnStartUpTrigger::new(min));
+        let mut apps = vec![];
+        let mut calls = vec![];
+        for (i, sz) in sizes.iter().enumerate() {
+            let dir = scratch.path().join(format!("d{}", i));
+            std::fs::create_dir_all(&dir).unwrap();
+            let path = dir.join("app.log");
+            std::fs::write(&path, gen_bytes(998000 + i as u64, *sz)).unwrap();
+            let c = Arc::new(AtomicU64::new(0));
+            let roller = FixedWindowRoller::builder().base(0).build(&format!("{}/app.log.{{}}", dir.display()), 1).unwrap();
+            let policy = CompoundPolicy::new(
+                Box::new(SharedTrigger(trigger.clone())),
+                Box::new(CountRoller { inner: Box::new(roller), calls: c.clone() }),
+            );
+            let app = RollingFileAppender::builder()
+                .append(true)
+                .encoder(Box::new(ScriptEncoder::new()))
+                .build(&path, Box::new(policy))
+                .unwrap();
+            apps.push((Arc::new(app), dir));
+            calls.push(c);
+        }
+        let barrier = Arc::new(Barrier::new(apps.len().max(1)));
+        let handles: Vec<_> = apps
+            .iter()
+            .enumerate()
+            .map(|(i, (app, _))| {
+                let app = app.clone();
+                let barrier = barrier.clone();
+                std::thread::spawn(move || {
+                    barrier.wait();
+                    for s in 0..nrec {
+                        let _ = RecSpec::Bin { id: (i as u64 + 1) * 65536 + s, sizes: vec![12] }.append_to(&*app);
+                    }
+                })
+            })
+            .collect();
+        for h in handles {
+            h.join().unwrap();
+        }
+        let mut out = vec![];
+        for (i, (_, dir)) in apps.iter().enumerate() {
+            let active = std::fs::read(dir.join("app.log")).unwrap_or_default();
+            let arch = std::fs::read(dir.join("app.log.0")).ok();
+            out.push(format!(
+                "{}:{}:{}",
+                calls[i].load(Ordering::SeqCst),
+                enc_bytes(&active),
+                arch.map(|a| enc_bytes(&a)).unwrap_or_else(|| "-".to_owned())
+            ));
+        }
+        drop(apps);
+        enc_list(",", &out)
+    }));
+    set_amplifier(0);
+    drop(scratch);
+    r.unwrap_or_else(|_| "PANIC".to_owned())
+}
+
+pub fn exec(fields: &[&str]) -> String {
+    match fields.first() {
+        Some(&"conc2") => exec_conc2(&fields[1..]),
+        Some(&"once") => exec_once(&fields[1..]),
+        _ => c05::exec(fields),
+    }
+}
+
+// ---------------------------------------------------------------------------------------------
+// generator
+// ---------------------------------------------------------------------------------------------
+fn bin(id: u64, sizes: Vec<u64>) -> String {
+    RecSpec::Bin { id, sizes }.render()
+}
+
+/// pre-existing size of the log file: around min_size, and well above it
+fn gen_pre_size(rng: &mut Rng, min: u64, few_ops: bool) -> Option<u64> {
+    let m = if min > 100_000 { 40 } else { min };
+    match rng.below(14) {
+        0 => None,
+        1 => Some(0),
+        2 => Some(m.saturating_sub(1)),
+        3 => Some(m),
+        4 => Some(m + 1),
+        5 => Some(m + 2),
+        6 => Some(*rng.pick(&[1023u64, 1024, 1025])),
+        7 => Some(10 * m + 3),
+        8 => Some(m + rng.range(2, 300)),
+        9 => {
+            let big = few_ops && rng.chance(1, 3);
+            Some(if big { 65536 } else { 2 * m + 7 })
+        }
+        10 => Some(rng.range(0, m + 3)),
+        11 => Some(m + 2 + rng.below(40)),
+        12 => Some(3 * m + 1),
+        _ => Some(m + 5000),
+    }
+}
+
+/// roller and pre-existing window (dense, gapped, with bystanders below and above the window)
+fn gen_window(rng: &mut Rng, allow_compress: bool) -> (RollSpec, Vec<(u32, u64)>) {
+    if rng.chance(1, 7) {
+        return (RollSpec::Delete, vec![]);
+    }
+    let base = *rng.pick(&[0u32, 1, 3]);
+    let count = *rng.pick(&[0u32, 1, 2, 3, 3, 5]);
+    let pat = if rng.chance(1, 2) || !allow_compress { *rng.pick(&[0u32, 1, 4]) } else { rng.below(5) as u32 };
+    let mut pre_arch = vec![];
+    match rng.below(4) {
+        0 => {}
+        1 => {
+            // dense from base
+            let k = rng.range(0, count as u64) as u32;
+            for j in 0..k {
+                pre_arch.push((base + j, rng.range(0, 30)));
+            }
+        }
+        2 => {
+            // full window
+            for j in 0..count {
+                pre_arch.push((base + j, rng.range(1, 30)));
+            }
+        }
+        _ => {
+            // gaps
+            for j in 0..count {
+                if rng.chance(1, 2) {
+                    pre_arch.push((base + j, rng.range(0, 30)));
+                }
+            }
+        }
+    }
+    if rng.chance(1, 3) {
+        pre_arch.push((base + count + rng.below(2) as u32, rng.range(1, 20)));
+    }
+    if base > 0 && rng.chance(1, 4) {
+        pre_arch.push((base - 1, rng.range(1, 20)));
+    }
+    (RollSpec::Fw { base, count, pat }, pre_arch)
+}
+
+fn gen_small_record(rng: &mut Rng, id: u64, min: u64) -> RecSpec {
+    let m = if min > 5000 { 7 } else { min };
+    match rng.below(12) {
+        0 => RecSpec::Bin { id, sizes: vec![0] },
+        1 => RecSpec::Bin { id, sizes: vec![m.max(1)] },
+        2 => RecSpec::Bin { id, sizes: vec![*rng.pick(&[1023u64, 1024, 1025])] },
+        3 => RecSpec::Bin { id, sizes: vec![rng.range(0, 9), rng.range(0, 9)] },
+        4 => RecSpec::Text { id, text: (*rng.pick(&["é", "héllo wörld", "日本語", "😀😀", "€"])).to_owned() },
+        5 => RecSpec::Bin { id, sizes: vec![m + 1] },
+        _ => RecSpec::Bin { id, sizes: vec![rng.range(1, 14)] },
+    }
+}
+
+/// a sequential history for the on-start-up trigger
+fn gen_seq17(rng: &mut Rng, thorough: bool) -> String {
+    let n_ops = if rng.chance(1, 14) { 0 } else { rng.range(1, if thorough { 30 } else { 14 }) as usize };
+    let min = match rng.below(10) {
+        0 => *rng.pick(&[(1u64 << 63) - 1, 1 << 63, u64::MAX]),
+        _ => *rng.pick(&[0u64, 1, 5, 5, 100, 1024, 4096]),
+    };
+    let (roll, pre_arch) = gen_window(rng, true);
+    let pre_active = gen_pre_size(rng, min, n_ops <= 4);
+    let case = Case {
+        append: rng.chance(3, 5),
+        pre_active,
+        pre_arch,
+        trig: TrigSpec::Startup(min),
+        roll: roll.clone(),
+        clock0: 1_700_000_000 + rng.below(200) as i64,
+    };
+    let (count, compress) = match &roll {
+        RollSpec::Fw { count, pat, .. } => (*count as u64, *pat == 2 || *pat == 3),
+        RollSpec::Delete => (0, false),
+    };
+    let mut ops = vec![];
+    let mut first = true;
+    for i in 0..n_ops {
+        let k = rng.below(16);
+        if k == 0 {
+            ops.push("r".to_owned());
+            first = true;
+            if rng.chance(1, 3) {
+                ops.push("r".to_owned());
+            }
+        } else if k == 1 {
+            ops.push(format!("c{}", rng.below(100)));
+        } else {
+            let rec = gen_small_record(rng, i as u64 + 1, min);
+            let r = rec.render();
+            let is_bin = r.starts_with('b');
+            let nchunks = r.split_once(':').map(|(_, b)| if b.is_empty() { 0 } else { b.split('+').count() }).unwrap_or(0) as u64;
+            let special = if first { rng.below(10) } else { rng.below(40) };
+            if special == 0 || special == 1 {
+                // a step of the rotation fails; with a compressing pattern index `count` is the extra
+                // hook point inside the compressing copy (C08's territory), so it is skipped
+                let mut kk = rng.range(0, count + 1);
+                if compress && kk == count {
+                    kk = count + 1;
+                }
+                ops.push(format!("f{}!{}", kk, r));
+            } else if special == 2 {
+                ops.push(format!("g!{}", r));
+            } else if (special == 3 || special == 4) && is_bin {
+                ops.push(format!("e{}!{}", rng.range(0, nchunks), r));
+            } else {
+                ops.push(r);
+            }
+            first = false;
+        }
+    }
+    format!("seq\t{}\t{}", case.render(), enc_list(",", &ops))
+}
+
+fn gen_conc2(rng: &mut Rng, thorough: bool) -> String {
+    let min = *rng.pick(&[0u64, 1, 5, 100, 4096, u64::MAX]);
+    let (roll, pre_arch) = gen_window(rng, true);
+    let case = Case {
+        append: rng.chance(3, 4),
+        pre_active: gen_pre_size(rng, min, false).map(|n| n.min(6000)),
+        pre_arch,
+        trig: TrigSpec::Startup(min),
+        roll,
+        clock0: 1_700_000_000,
+    };
+    let nthreads = *rng.pick(&[2u64, 3, 4, 8, 8, 12, 16]);
+    let nrounds = rng.range(1, if thorough { 4 } else { 3 });
+    let mut lates = vec![];
+    let mut rounds = vec![];
+    for k in 0..nrounds {
+        if rng.chance(1, 3) {
+            lates.push(k.to_string());
+        }
+        let nth = if rng.chance(1, 5) { rng.range(1, nthreads) } else { nthreads };
+        let mut threads = vec![];
+        for t in 0..nth {
+            let lo = if rng.chance(1, 6) { 0 } else { 1 };
+            let nrecs = rng.range(lo, 3);
+            let mut recs = vec![];
+            for s in 0..nrecs {
+                let id = (k * 32 + t + 1) * 65536 + s;
+                let sizes = match rng.below(8) {
+                    0 => vec![0],
+                    1 => vec![8],
+                    2 => vec![rng.range(1000, 1040)],
+                    3 => vec![rng.range(8, 100), rng.range(8, 300)],
+                    _ => vec![rng.range(8, 60)],
+                };
+                let r = bin(id, sizes.clone());
+                if rng.chance(1, 7) {
+                    recs.push(format!("e{}!{}", rng.range(0, sizes.len() as u64), r));
+                } else {
+                    recs.push(r);
+                }
+            }
+            threads.push(enc_list(",", &recs));
+        }
+        rounds.push(threads.join("|"));
+    }
+    format!("conc2\t{}\t{}\t{}\t{}", case.render(), rng.below(3), enc_list(",", &lates), rounds.join(";"))
+}
+
+fn gen_once(rng: &mut Rng) -> String {
+    let min = *rng.pick(&[0u64, 1, 5, 100]);
+    let n = rng.range(2, 8);
+    let mode = rng.below(3);
+    let sizes: Vec<String> = (0..n)
+        .map(|_| {
+            let big = match mode {
+                0 => true,
+                1 => false,
+                _ => rng.chance(1, 2),
+            };
+            if big || min == 0 { min + rng.below(4) } else { rng.range(0, min - 1) }.to_string()
+        })
+        .collect();
+    format!("once\t{}\t{}\t{}", min, sizes.join(","), if rng.chance(1, 12) { 0 } else { rng.range(1, 3) })
+}
+
 pub fn gen(rng: &mut Rng, n: usize, thorough: bool, emit: &mut dyn FnMut(String)) {
-    // deterministic block: min × {absent, 0, min-1, min, min+1} × mode × roller
+    // deterministic block: min × {absent, 0, min-1, min, min+1, min+2, 10·min+3} × mode × roller
     for &min in MINS {
-        let mut pres = vec![None, Some(0), Some(min), Some(min + 1)];
+        let mut pres = vec![None, Some(0), Some(min), Some(min + 1), Some(min + 2), Some(10 * min + 3)];
         if min > 0 {
             pres.push(Some(min - 1));
         }
@@ -32,12 +545,12 @@ pub fn gen(rng: &mut Rng, n: usize, thorough: bool, emit: &mut dyn FnMut(String)
                         clock0: 1_700_000_000,
                     };
                     let ops = vec![
-                        RecSpec::Bin { id: 1, sizes: vec![6] }.render(),
-                        RecSpec::Bin { id: 2, sizes: vec![min.max(1)] }.render(),
-                        RecSpec::Bin { id: 3, sizes: vec![0] }.render(),
+                        bin(1, vec![6]),
+                        bin(2, vec![min.max(1)]),
+                        bin(3, vec![0]),
                         "r".to_owned(),
-                        RecSpec::Bin { id: 4, sizes: vec![2, 3] }.render(),
-                        RecSpec::Bin { id: 5, sizes: vec![1] }.render(),
+                        bin(4, vec![2, 3]),
+                        bin(5, vec![1]),
                         "r".to_owned(),
                         "r".to_owned(),
                         RecSpec::Text { id: 6, text: "héllo".to_owned() }.render(),
@@ -45,12 +558,7 @@ pub fn gen(rng: &mut Rng, n: usize, thorough: bool, emit: &mut dyn FnMut(String)
                     emit(format!("seq\t{}\t{}", case.render(), enc_list(",", &ops)));
                     // the first records arrive simultaneously from 8 threads
                     let threads: Vec<String> = (0..8u64)
-                        .map(|t| {
-                            (0..2u64)
-                                .map(|s| RecSpec::Bin { id: (t + 1) * 65536 + s, sizes: vec![8 + t, s * 1020] }.render())
-                                .collect::<Vec<_>>()
-                                .join(",")
-                        })
+                        .map(|t| (0..2u64).map(|s| bin((t + 1) * 65536 + s, vec![8 + t, s * 1020])).collect::<Vec<_>>().join(","))
                         .collect();
                     emit(format!("conc\t{}\t{}\t{}", case.render(), (min + pre.unwrap_or(0)) % 3, threads.join("|")));
                 }
@@ -69,12 +577,7 @@ pub fn gen(rng: &mut Rng, n: usize, thorough: bool, emit: &mut dyn FnMut(String)
                     roll: RollSpec::Fw { base: 1, count: 2, pat: 0 },
                     clock0: 1_700_000_000,
                 };
-                let ops = vec![
-                    RecSpec::Bin { id: 1, sizes: vec![6] }.render(),
-                    RecSpec::Bin { id: 2, sizes: vec![1] }.render(),
-                    "r".to_owned(),
-                    RecSpec::Bin { id: 3, sizes: vec![2] }.render(),
-                ];
+                let ops = vec![bin(1, vec![6]), bin(2, vec![1]), "r".to_owned(), bin(3, vec![2])];
                 emit(format!("seq\t{}\t{}", case.render(), enc_list(",", &ops)));
             }
         }
@@ -101,11 +604,17 @@ pub fn gen(rng: &mut Rng, n: usize, thorough: bool, emit: &mut dyn FnMut(String)
                         roll: roll.clone(),
                         clock0: 1_700_000_000,
                     };
-                    let ok = |id: u64, n: u64| RecSpec::Bin { id, sizes: vec![n] }.render();
                     for ops in [
-                        vec![format!("e0!{}", ok(1, 4)), ok(2, 3), ok(3, 1)],
-                        vec![format!("e1!{}", RecSpec::Bin { id: 1, sizes: vec![2, 2] }.render()), format!("e0!{}", ok(2, 3)), ok(3, 1), "r".to_owned(), format!("e1!{}", ok(4, 2)), ok(5, 1)],
-                        vec![ok(1, 4), format!("e0!{}", ok(2, 3)), ok(3, 1)],
+                        vec![format!("e0!{}", bin(1, vec![4])), bin(2, vec![3]), bin(3, vec![1])],
+                        vec![
+                            format!("e1!{}", bin(1, vec![2, 2])),
+                            format!("e0!{}", bin(2, vec![3])),
+                            bin(3, vec![1]),
+                            "r".to_owned(),
+                            format!("e1!{}", bin(4, vec![2])),
+                            bin(5, vec![1]),
+                        ],
+                        vec![bin(1, vec![4]), format!("e0!{}", bin(2, vec![3])), bin(3, vec![1])],
                     ] {
                         emit(format!("seq\t{}\t{}", case.render(), enc_list(",", &ops)));
                     }
@@ -130,27 +639,89 @@ pub fn gen(rng: &mut Rng, n: usize, thorough: bool, emit: &mut dyn FnMut(String)
                     clock0: 1_700_000_000,
                 };
                 let ops = vec![
-                    format!("g!{}", RecSpec::Bin { id: 1, sizes: vec![6] }.render()),
-                    RecSpec::Bin { id: 2, sizes: vec![2] }.render(),
-                    format!("g!{}", RecSpec::Bin { id: 3, sizes: vec![1] }.render()),
+                    format!("g!{}", bin(1, vec![6])),
+                    bin(2, vec![2]),
+                    format!("g!{}", bin(3, vec![1])),
                     "r".to_owned(),
-                    format!("g!{}", RecSpec::Bin { id: 4, sizes: vec![2, 3] }.render()),
-                    RecSpec::Bin { id: 5, sizes: vec![1] }.render(),
+                    format!("g!{}", bin(4, vec![2, 3])),
+                    bin(5, vec![1]),
                 ];
                 emit(format!("seq\t{}\t{}", case.render(), enc_list(",", &ops)));
             }
         }
     }
+    // round 4: the rotation requested by the first record stops at step k (every k of every window
+    // shape), then the request must never be repeated; windows dense, full and with gaps
+    for (count, pat) in [(1u32, 0u32), (2, 0), (3, 0), (3, 1), (3, 2)] {
+        for k in 0..=count as u64 {
+            if pat == 2 && k == count as u64 {
+                continue;
+            }
+            for shape in 0..4u32 {
+                let base = 1u32;
+                let pre_arch: Vec<(u32, u64)> = match shape {
+                    0 => vec![],
+                    1 => (0..count).map(|j| (base + j, 3 + j as u64)).collect(),
+                    2 => (0..count).filter(|j| j % 2 == 0).map(|j| (base + j, 3 + j as u64)).collect(),
+                    _ => (0..count).filter(|j| j % 2 == 1).map(|j| (base + j, 3 + j as u64)).chain([(base + count, 9u64), (0, 2)]).collect(),
+                };
+                for append in [true, false] {
+                    let case = Case {
+                        append,
+                        pre_active: Some(7),
+                        pre_arch: pre_arch.clone(),
+                        trig: TrigSpec::Startup(5),
+                        roll: RollSpec::Fw { base, count, pat },
+                        clock0: 1_700_000_000,
+                    };
+                    let ops = vec![
+                        format!("f{}!{}", k, bin(1, vec![4])),
+                        bin(2, vec![3]),
+                        bin(3, vec![1]),
+                        "r".to_owned(),
+                        bin(4, vec![2]),
+                        "r".to_owned(),
+                        format!("f{}!{}", if pat == 2 && (k + 1) % (count as u64 + 1) == count as u64 { 0 } else { (k + 1) % (count as u64 + 1) }, bin(5, vec![2])),
+                        bin(6, vec![1]),
+                    ];
+                    emit(format!("seq\t{}\t{}", case.render(), enc_list(",", &ops)));
+                }
+            }
+        }
+    }
+    // round 4: windows with gaps, fault-free, three appenders in a row
+    for count in [2u32, 3, 5] {
+        for mask in 0..(1u32 << count.min(3)) {
+            let pre_arch: Vec<(u32, u64)> = (0..count.min(3)).filter(|j| mask & (1 << j) != 0).map(|j| (j, 2 + j as u64)).collect();
+            for append in [true, false] {
+                let case = Case {
+                    append,
+                    pre_active: Some(3),
+                    pre_arch: pre_arch.clone(),
+                    trig: TrigSpec::Startup(1),
+                    roll: RollSpec::Fw { base: 0, count, pat: 0 },
+                    clock0: 1_700_000_000,
+                };
+                let ops = vec![bin(1, vec![4]), "r".to_owned(), bin(2, vec![3]), bin(3, vec![1]), "r".to_owned(), bin(4, vec![2])];
+                emit(format!("seq\t{}\t{}", case.render(), enc_list(",", &ops)));
+            }
+        }
+    }
     for _ in 0..n {
-        emit(c05::gen_seq_case(rng, thorough, TrigChoice::Startup));
+        emit(gen_seq17(rng, thorough));
     }
-    for _ in 0..(if thorough { n / 5 } else { n / 15 }).max(4) {
-        emit(c05::gen_conc_case(rng, thorough, TrigChoice::Startup));
+    for _ in 0..(n / 6).max(6) {
+        emit(c05::gen_seq_case(rng, thorough, c05::TrigChoice::Startup));
     }
-}
-
-pub fn exec(fields: &[&str]) -> String {
-    c05::exec(fields)
+    for _ in 0..(if thorough { n / 5 } else { n / 10 }).max(6) {
+        emit(gen_conc2(rng, thorough));
+    }
+    for _ in 0..(if thorough { n / 20 } else { n / 30 }).max(4) {
+        emit(c05::gen_conc_case(rng, thorough, c05::TrigChoice::Startup));
+    }
+    for _ in 0..(if thorough { n / 10 } else { n / 15 }).max(6) {
+        emit(gen_once(rng));
+    }
 }
 
 /// child-process entry point (`verif-harness child c17 …`); not needed by this property
